@@ -423,3 +423,145 @@ func reduceInstrs(n, k, maxLen int, mustUse int, big bool, f func(in Instr)) {
 		}
 	}
 }
+
+// ---- destination-aliases-operand forms ---------------------------------------------------------------
+
+// canHold: operands whose object can be the receiver of an operation (a variable, an earlier
+// result register, a magic-typed scalar holding a constant such as an accumulator).
+func canHold(o Operand) bool { return o.K == 'V' || o.K == 'R' || o.K == 'C' }
+
+// sameName: both slots name one variable or one register, i.e. one object.
+func sameName(a, b Operand) bool { return a.K == b.K && a.I == b.I && (a.K == 'V' || a.K == 'R') }
+
+// aliasChoices: every way the destination of a scalar instruction can be one of its operands.
+// Reductions have none: a receiver that is an element of the reduction's own operand is the
+// family "receiver-is-element-of-vector-operand" listed as open finding of property C08
+// (every reduction starts with r.Reset()); it is not enumerated a second time here.
+func aliasChoices(in *Instr) []string {
+	switch ops[in.Op].Kind {
+	case Unary:
+		if canHold(in.A) {
+			return []string{"a"}
+		}
+	case Binary:
+		if sameName(in.A, in.B) {
+			return []string{"ab"}
+		}
+		var r []string
+		if canHold(in.A) {
+			r = append(r, "a")
+		}
+		if canHold(in.B) {
+			r = append(r, "b")
+		}
+		if in.A.K == 'C' && in.B.K == 'C' && in.A.V == in.B.V {
+			r = append(r, "ab") // c.Mul(c, c) on a constant-valued magic scalar
+		}
+		return r
+	}
+	return nil
+}
+
+func refsName(in *Instr, t Operand) bool {
+	is := func(q Operand) bool { return q.K == t.K && q.I == t.I }
+	if is(in.A) || is(in.B) {
+		return true
+	}
+	for _, q := range in.Vec {
+		if is(q) {
+			return true
+		}
+	}
+	for _, q := range in.Vec2 {
+		if is(q) {
+			return true
+		}
+	}
+	return false
+}
+
+func hasAlias(p *Program) bool {
+	for i := range p.Ins {
+		if p.Ins[i].Dst != "" {
+			return true
+		}
+	}
+	return false
+}
+
+// stripAlias: the same program in SSA form.
+func stripAlias(p *Program) Program {
+	q := Program{N: p.N, Ins: append([]Instr(nil), p.Ins...)}
+	for i := range q.Ins {
+		q.Ins[i].Dst = ""
+	}
+	return q
+}
+
+// usesFreshObjects: some destination register or scratch temporary of the program is an
+// object of its own (whose previous content the register-reuse modes vary).
+func usesFreshObjects(p *Program) bool {
+	for i := range p.Ins {
+		if p.Ins[i].Dst == "" {
+			return true
+		}
+		switch ops[p.Ins[i].Op].Name {
+		case "Sigmoid", "LogAdd", "LogSub":
+			return true
+		}
+	}
+	return false
+}
+
+// aliasVariants: every program that differs from the SSA program p only in that a non-empty
+// set of instructions (among those admitted by only) writes its result into one of its own
+// operands, and in which no later instruction reads an overwritten variable or register.
+func aliasVariants(p *Program, only func(k int) bool) []Program {
+	choices := make([][]string, len(p.Ins))
+	any := false
+	for k := range p.Ins {
+		choices[k] = []string{""}
+		if only == nil || only(k) {
+			choices[k] = append(choices[k], aliasChoices(&p.Ins[k])...)
+		}
+		any = any || len(choices[k]) > 1
+	}
+	if !any {
+		return nil
+	}
+	var out []Program
+	cur := make([]string, len(p.Ins))
+	var rec func(k int)
+	rec = func(k int) {
+		if k == len(p.Ins) {
+			q := Program{N: p.N, Ins: append([]Instr(nil), p.Ins...)}
+			aliased := false
+			for i := range q.Ins {
+				q.Ins[i].Dst = cur[i]
+				aliased = aliased || cur[i] != ""
+			}
+			if !aliased {
+				return
+			}
+			for i := range q.Ins {
+				t, ok := q.Ins[i].target()
+				if !ok || t.K == 'C' {
+					continue
+				}
+				for l := i + 1; l < len(q.Ins); l++ {
+					if refsName(&q.Ins[l], t) {
+						return // the overwritten name is read again: no SSA equivalent
+					}
+				}
+			}
+			out = append(out, q)
+			return
+		}
+		for _, c := range choices[k] {
+			cur[k] = c
+			rec(k + 1)
+		}
+	}
+	rec(0)
+	return out
+}
